@@ -503,7 +503,7 @@ func genSeq(tier string, seed int64, prop string, nQuick, nThorough int) []core.
 	for i := 0; i < n; i++ {
 		c := core.Case{ID: fmt.Sprintf("%s-%05d", strings.ToLower(prop), i), Kind: "seq", Seed: r.Int63(),
 			S: map[string]string{
-				"keys":  []string{"hostile", "hostile", "windowed", "windowed", "long", "binary", "plain"}[r.Intn(7)],
+				"keys":  []string{"hostile", "prefix", "windowed", "windowed", "long", "binary", "plain", "prefix"}[r.Intn(8)],
 				"drain": []string{"always", "never", "random"}[r.Intn(3)],
 				"delay": gen.DelayProfiles[r.Intn(len(gen.DelayProfiles))],
 			},
